@@ -796,6 +796,7 @@ class LibMixin:
     def container_contains(self, st, ref, item):
         h = st.deref(ref)
         if isinstance(h, HODict):
+            self.od_access(st, ref)
             return [(st, z3.Select(h.present, box(item)))]
         if isinstance(h, HDict):
             if h.present is None:
